@@ -386,7 +386,7 @@ struct ValOps<NoValue> {
 template <>
 struct ValOps<SizeT> {
     static SizeT make(uint32_t seed) { return SizeT(seed); }
-    static bool  matches(const SizeT &v, int64_t m) { return m < 0 ? v == 0 : v == SizeT(m); }
+    static bool  matches(const SizeT &v, int64_t m) { return m == -2 ? true : (m < 0 ? v == 0 : v == SizeT(m)); }
 };
 template <>
 struct ValOps<QStr> {
@@ -395,6 +395,9 @@ struct ValOps<QStr> {
         return QStr(static_cast<const char *>(t.buf), SizeT(t.len));
     }
     static bool matches(const QStr &v, int64_t m) {
+        if (m == -2) {
+            return true; // a value the model does not describe (moved-from, or taken over from a nested object)
+        }
         if (m < 0) {
             return v.Length() == 0;
         }
@@ -782,6 +785,31 @@ struct Runner {
                     }
                     mm.put(key, sval, true);
                     note = "value argument aliases the entry '" + pbt::enc_bytes(skey) + "'";
+                    f_alias = true;
+                    return;
+                }
+            }
+            // ... and the rvalue overloads may be handed an entry of the same table (h.Insert(k2, move(*h.GetValue(k1)))): what is left
+            // in the source entry is a moved-from value, the new entry holds the old content
+            if (cs.gen2 != 0 && (o.variant & 0x80u) != 0 && (o.variant % 5u == 0 || o.variant % 5u == 1) && !mm.items.empty()) {
+                auto             &src  = mm.items[size_t(o.seed) % mm.items.size()];
+                const std::string skey = src.first;
+                const int64_t     sval = src.second;
+                V                *sp   = t.GetValue(skey.data(), SizeT(skey.size()));
+                if (sp != nullptr && skey != key) {
+                    if (o.variant % 5u == 0) {
+                        t.Insert(mk(key, nul), Memory::Move(*sp));
+                    } else {
+                        const QStr k = mk(key, nul);
+                        t.Insert(k, Memory::Move(*sp));
+                    }
+                    for (auto &it : mm.items) {
+                        if (it.first == skey) {
+                            it.second = -2;
+                        }
+                    }
+                    mm.put(key, sval, true);
+                    note    = "moved value argument is the entry '" + pbt::enc_bytes(skey) + "' of the same table";
                     f_alias = true;
                     return;
                 }
